@@ -138,6 +138,7 @@ def sensitivity(only=None, tier='quick'):
             env['SIMDASSH_REPO'] = wt
             env['SIMDASSH_EVIDENCE_DIR'] = ev
             env['SIMDASSH_REPLAY_DIR'] = os.path.join(base, 'replays')
+            env['SIMDASSH_NO_SHRINK'] = '1'
             t0 = time.time()
             p = subprocess.run([sys.executable, os.path.join(ROOT, 'check'),
                                 m['property'], '--tier', tier],
